@@ -10,5 +10,5 @@ Extraction "model.ml" isprime_model isprime_total tabule1 tabule2
   nextprime_model nextprimein_model prevprime_model prevprimein_model protected_prevprime_model
   factor_model pollard_model lenstra_model iffactorprime_model primefactor_model
   set2_model set1_model write_model divisors_model divisors_of_model isprimepower_model
-  pollard_s factor_s iffactorprime_s primefactor_s factor_inplace_s iffactorprime_inplace_s pollard_inplace_s miller_model erat_model fermat_model pepin_model dom_make dom_copy dom_assign dom_copies factor_d.
+  pollard_s factor_s iffactorprime_s primefactor_s factor_inplace_s iffactorprime_inplace_s pollard_inplace_s miller_model erat_model fermat_model pepin_model set2_s divisors_of_s dom_make dom_copy dom_assign dom_copies factor_d.
 Cd "..".
